@@ -1000,7 +1000,10 @@ static void set_sockbufs(struct session *s, int afd, int bfd)
 	int one = 1;
 	if (s->sndbuf && afd >= 0) setsockopt(afd, SOL_SOCKET, SO_SNDBUF, &s->sndbuf, sizeof(int));
 	if (s->rcvbuf && bfd >= 0) setsockopt(bfd, SOL_SOCKET, SO_RCVBUF, &s->rcvbuf, sizeof(int));
-	if (s->base_kind == BASE_TCP && afd >= 0 && vh_chance(&s->rng, 1, 2)) setsockopt(afd, IPPROTO_TCP, TCP_NODELAY, &one, sizeof(one));
+	if (s->base_kind == BASE_TCP && vh_chance(&s->rng, 3, 4)) {
+		if (afd >= 0) setsockopt(afd, IPPROTO_TCP, TCP_NODELAY, &one, sizeof(one));
+		if (bfd >= 0) setsockopt(bfd, IPPROTO_TCP, TCP_NODELAY, &one, sizeof(one));
+	}
 }
 static int build_session(struct session *s)
 {
@@ -1139,6 +1142,41 @@ static int wm_loop_possible(struct session *s)
 	}
 	return 0;
 }
+/* TCP is asynchronous below us: Nagle/delayed ACK or a deferred softirq can hold bytes in
+ * the kernel for real milliseconds while this harness never sleeps.  Before the loop is
+ * called idle, give bytes that are still in a socket send queue a (real-time, bounded)
+ * chance to reach a reader libevent is polling.  Returns 1 if the reader became ready. */
+#ifndef SIOCOUTQNSD
+#define SIOCOUTQNSD 0x894B
+#endif
+static int kernel_in_flight;
+static int transport_settle(struct session *s)
+{
+	int dir, waited = 0;
+	kernel_in_flight = 0;
+	if (s->base_kind != BASE_TCP) return 0;
+	for (dir = 0; dir < 2; dir++) {
+		struct endpoint *W = &s->ep[dir], *R = &s->ep[!dir];
+		int outq = 0, unsent = 0, i;
+		if (W->fd < 0 || R->fd < 0 || R->freed || !R->L[0].has_fd) continue;
+		if (!event_pending(&R->L[0].bev->ev_read, EV_READ, NULL)) continue;
+		if (W->freed) continue;
+		__real_ioctl(W->fd, TIOCOUTQ, &outq);
+		if (outq <= 0 || fionread(R->fd) > 0) continue;
+		__real_ioctl(W->fd, SIOCOUTQNSD, &unsent);
+		for (i = 0; i < (unsent > 0 ? 100 : 1); i++) {
+			struct pollfd p;
+			p.fd = R->fd; p.events = POLLIN; p.revents = 0;
+			waited = 1;
+			if (__real_poll(&p, 1, 5) > 0) { vh_stat("real_wait_for_tcp_delivery"); return 1; }
+			unsent = 0; __real_ioctl(W->fd, SIOCOUTQNSD, &unsent);
+			if (unsent <= 0) break;
+		}
+		if (unsent > 0) { kernel_in_flight = 1; vh_stat("tcp_unsent_after_500ms"); }
+	}
+	if (waited) vh_stat("real_wait_timeouts");
+	return 0;
+}
 enum { ST_IDLE, ST_BUSY_STUCK, ST_CAP, ST_ENDED };
 static int step_until_idle(struct session *s)
 {
@@ -1152,8 +1190,11 @@ static int step_until_idle(struct session *s)
 		if (sig != last) { unchanged = 0; last = sig; } else unchanged++;
 		active = event_base_get_num_events(s->base, EVENT_BASE_COUNT_ACTIVE);
 		if (!fd_work_pending(s)) {
-			if (active == 0) { vh_stat("idle_points"); return ST_IDLE; }
-			if (unchanged >= 4 && wm_loop_possible(s)) { vh_stat("idle_points_wm_readcb_loop"); return ST_IDLE; }
+			if (active == 0 || (unchanged >= 4 && wm_loop_possible(s))) {
+				if (transport_settle(s)) continue;
+				vh_stat(active ? "idle_points_wm_readcb_loop" : "idle_points");
+				return ST_IDLE;
+			}
 		}
 		if (unchanged > 3000) { vh_stat("busy_without_progress"); return ST_BUSY_STUCK; }
 	}
@@ -1188,6 +1229,7 @@ static void check_liveness(struct session *s, const char *where, int st)
 		else if (s->tls && (s->ep[0].connected != 1 || s->ep[1].connected != 1)) blk = "handshake incomplete";
 		else if (s->connect_via_bev && s->ep[0].connected != 1) blk = "connecting";
 		else if (s->shut_started && dir == 1) blk = "peer shut down";
+		else if (kernel_in_flight) { blk = "kernel still holds unsent bytes"; vh_stat("inconclusive_kernel_in_flight"); }
 		vh_stat("liveness_checks_with_pending_data");
 		if (blk) { VLOG("  liveness(%s) dir %d pending, blocked by %s", where, dir, blk); continue; }
 		if (vh_opt.verbose) {
@@ -1200,6 +1242,11 @@ static void check_liveness(struct session *s, const char *where, int st)
 				    e->L[0].has_fd ? event_pending(&e->L[0].bev->ev_write, EV_WRITE, NULL) : -1,
 				    e->fd >= 0 ? fd_ready(e->fd, POLLIN) : -1, e->fd >= 0 ? fd_ready(e->fd, POLLOUT) : -1, fionread(e->fd),
 				    e->top->enabled, bp->read_suspended, bp->write_suspended);
+				if (e->tls == TLS_OSSL) {
+					SSL *ssl = bufferevent_openssl_get_ssl(e->L[e->tls_layer].bev);
+					VLOG("   %s: SSL_pending=%d has_pending=%d toplen in=%zu out=%zu", side_name(e), SSL_pending(ssl), SSL_has_pending(ssl),
+					    evbuffer_get_length(e->top->input), evbuffer_get_length(e->top->output));
+				}
 			}
 		}
 		{
